@@ -58,6 +58,16 @@ CLAIMED = {
    note='Trusted: Coq kernel; extraction + driver; hand-written Model/Route.v tied by the differential run; request frames are built with cpppo\'s own producers; '
         'remote routing (UCMM.route table) not modelled; IPv4 dotted quads only.',
    technique='Coq proof (decision procedure equivalences, text round trip by induction) + exhaustive correspondence on the personality x path grid', design='6 C15'),
+
+ 'C16': dict(
+   text='Coq theorems (Properties/C16.v) over a string-level transcription of dotdict: canonical paths split into first component and rest; "a.b..c" '
+        'resolves as "a.c"; after a successful assignment by any canonical path lookup returns the value; paths through another first component are untouched '
+        '(even when the assignment fails midway); membership = lookup success; iteration lists canonical leaf paths and each looks up to the listed value; deleting '
+        'a non-empty level and reserved names (final and interior) are refused; the pinned tree accepted "m.items.c" (witness, repaired by a fix: commit).  '
+        'Tie: _resolve exhaustively on all strings up to length 6 (thorough 8) over {a,b,.,[,]} and seeded operation sequences incl. name[i] lists of mappings.',
+   note='Trusted: Coq kernel; extraction + driver; hand-written Model/Dotdict.v tied by the differential run; index expressions other than name[<digits>] and '
+        'object aliasing ("copies are structurally independent") are outside the model - aliasing is checked on the implementation only.',
+   technique='Coq proof (string lemmas for _resolve, induction over path components / tree depth) + exhaustive and random correspondence', design='6 C16'),
 }
 PENDING = {}
 ALL = ['C%02d' % i for i in range(1, 21)]
